@@ -53,6 +53,12 @@ class Poly:
             raise AnalysisError("boolean used as a number")
         if isinstance(v, (int, Fraction)):
             return Poly.const(v)
+        if isinstance(v, float) and v == int(v):
+            return Poly.const(int(v))
+        if isinstance(v, complex) and v.real == int(v.real) and \
+                v.imag == int(v.imag):
+            # the imaginary unit is the symbol J
+            return Poly.const(int(v.real)) + Poly.sym("J") * int(v.imag)
         raise AnalysisError(f"not a number in the abstract domain: {v!r}")
 
     def is_const(self):
@@ -203,6 +209,11 @@ class Obj:
         return f"<{getattr(self.cls, 'name', self.cls)} {self.fields}>"
 
 
+class Native:
+    """abstract values that implement Python's operators themselves (vectors of
+    Polys): the interpreter applies the operator to them directly"""
+
+
 class Bound:
     def __init__(self, fn, obj, env=None):
         self.fn, self.obj, self.env = fn, obj, env or {}
@@ -283,6 +294,16 @@ class Interp:
 
     # -- entry points ------------------------------------------------------
     def call_function(self, fn, args, env=None):
+        self.depth = getattr(self, "depth", 0) + 1
+        try:
+            if self.depth > 40:
+                raise StepBound("abstract interpretation: interpreted calls "
+                                "nest deeper than 40")
+            return self._call_function(fn, args, env)
+        finally:
+            self.depth -= 1
+
+    def _call_function(self, fn, args, env=None):
         env = dict(env or {})
         params = [a.arg for a in fn.args.args]
         defaults = fn.args.defaults
@@ -313,6 +334,8 @@ class Interp:
         if isinstance(v, Poly):
             if v.is_const():
                 return v.const_value() != 0
+        elif isinstance(v, Native):
+            return bool(len(v))
         elif isinstance(v, Obj):
             r = self.call_method(v, "__bool__", [], node)
             if r is not NotImplemented:
@@ -342,6 +365,8 @@ class Interp:
             base = self.eval(tgt.value, env)
             idx = self.eval(tgt.slice, env)
             if isinstance(base, (list, dict)):
+                base[idx] = v
+            elif isinstance(base, Native) and hasattr(base, "__setitem__"):
                 base[idx] = v
             else:
                 raise AnalysisError(f"store into {base!r}")
@@ -429,6 +454,8 @@ class Interp:
                 env.setdefault(name, Opaque(f"module {a.name}"))
         elif isinstance(st, ast.FunctionDef):
             env[st.name] = Closure(st, env)
+        elif isinstance(st, ast.ClassDef):
+            env[st.name] = Opaque(f"class {st.name}")
         elif isinstance(st, ast.Pass):
             return
         elif isinstance(st, ast.Break):
@@ -442,6 +469,20 @@ class Interp:
     def binop(self, node, op, a, b):
         if isinstance(a, Obj) or isinstance(b, Obj):
             return self.obj_binop(node, op, a, b)
+        if isinstance(a, Native) or isinstance(b, Native):
+            try:
+                if not isinstance(a, Native):
+                    # scalar <op> vector: the vector's reflected operator
+                    if isinstance(op, ast.Mult):
+                        return b.__rmul__(a)
+                    if isinstance(op, ast.Add):
+                        return b.__radd__(a)
+                    if isinstance(op, ast.Sub):
+                        return (-b).__radd__(a)
+                    raise KeyError
+                return _CONCRETE[type(op)](a, b)
+            except (KeyError, TypeError):
+                raise AnalysisError(f"vector operation {ast.unparse(node)}")
         if (isinstance(a, Opaque) or isinstance(b, Opaque)) and \
                 "<opaque-binop>" in self.calls:
             return self.calls["<opaque-binop>"](self, node, op, a, b)
@@ -500,6 +541,9 @@ class Interp:
                 return {"True": True, "False": False, "None": None}[e.id]
             if e.id in self.calls or e.id in _BUILTINS:
                 return Opaque(f"function {e.id}")
+            if e.id.endswith(("Warning", "Error", "Exception")) or e.id in (
+                    "object", "complex", "float", "dict", "set", "frozenset"):
+                return Opaque(f"class {e.id}")
             raise AnalysisError(f"name {e.id} is not bound in the abstract state")
         if isinstance(e, ast.Tuple):
             return tuple(self._elts(e.elts, env))
@@ -518,8 +562,8 @@ class Interp:
                     return self._bad(e)
                 return r
             if isinstance(e.op, ast.USub):
-                return -v if isinstance(v, (int, Fraction, Poly)) else \
-                    self._bad(e)
+                return -v if isinstance(v, (int, float, complex, Fraction, Poly,
+                                            Native)) else self._bad(e)
             if isinstance(e.op, ast.UAdd):
                 return v
             return self._bad(e)
@@ -551,11 +595,11 @@ class Interp:
                 lo = self.eval(e.slice.lower, env) if e.slice.lower else None
                 hi = self.eval(e.slice.upper, env) if e.slice.upper else None
                 stp = self.eval(e.slice.step, env) if e.slice.step else None
-                if not isinstance(base, (tuple, list, str)):
+                if not isinstance(base, (tuple, list, str, Native)):
                     raise AnalysisError(f"slice of {base!r}")
                 return base[slice(lo, hi, stp)]
             idx = self.eval(e.slice, env)
-            if isinstance(base, (tuple, list, str, dict)) and isinstance(
+            if isinstance(base, (tuple, list, str, dict, Native)) and isinstance(
                     idx, (int, str)):
                 try:
                     return base[idx]
@@ -739,7 +783,9 @@ _CMP = {
     ast.Gt: lambda a, b: a > b, ast.GtE: lambda a, b: a >= b,
 }
 _BUILTINS = {
-    "len": len, "range": range, "enumerate": lambda x, s=0: list(enumerate(x, s)),
+    "len": len, "range": range,
+    "enumerate": lambda x, s=0: list(enumerate(
+        x.items if isinstance(x, Native) and hasattr(x, "items") else x, s)),
     "reversed": lambda x: list(reversed(x)), "zip": lambda *a: list(zip(*a)),
     "tuple": lambda x=(): tuple(x), "list": lambda x=(): list(x),
     "int": lambda x: x if isinstance(x, (int, Poly)) and not isinstance(
